@@ -1,0 +1,93 @@
+//go:build verif
+
+package rest
+
+// Verification hooks (add-only, build tag `verif`): the websocket hub listeners without a network
+// peer.  Only the fields hub, c, mailbox and the methods Receive / Delete / Close are referenced.
+
+import (
+	"github.com/inbucket/inbucket/v3/pkg/extension/event"
+	"github.com/inbucket/inbucket/v3/pkg/msghub"
+)
+
+// VerifListener is a websocket hub listener whose event queue the caller drains itself.
+type VerifListener interface {
+	msghub.Listener
+	// Close is what WSReader / WSWriter call when the socket goes away.
+	Close()
+	// VerifTryRecv is a non-blocking receive from the event queue: ev is the canonical text of the
+	// event ("s:<mailbox>:<id>:<subject>" stored, "d:<mailbox>:<id>" deleted); ok reports that an event
+	// was taken; closed that the queue channel is closed (and empty).
+	VerifTryRecv() (ev string, ok bool, closed bool)
+	// VerifLen is the number of events buffered in the queue.
+	VerifLen() int
+	// VerifCap is the capacity of the queue.
+	VerifCap() int
+}
+
+type verifListenerV1 struct{ *msgListenerV1 }
+
+type verifListenerV2 struct{ *msgListenerV2 }
+
+// VerifNewListenerV1 creates a v1 listener; like the web handlers it registers with hub.
+func VerifNewListenerV1(hub *msghub.Hub, mailbox string) VerifListener {
+	return verifListenerV1{newMsgListenerV1(hub, mailbox)}
+}
+
+// VerifNewListenerV2 creates a v2 listener; like the web handlers it registers with hub.
+func VerifNewListenerV2(hub *msghub.Hub, mailbox string) VerifListener {
+	return verifListenerV2{newMsgListenerV2(hub, mailbox)}
+}
+
+// The hub keys its listener set by interface value.  newMsgListenerVx registered the inner pointer,
+// and Close passes the inner pointer to RemoveListener, so the wrappers forward the listener methods
+// untouched and are never themselves registered.
+
+func (l verifListenerV1) Receive(msg event.MessageMetadata) error {
+	return l.msgListenerV1.Receive(msg)
+}
+func (l verifListenerV1) Delete(mailbox, id string) error { return l.msgListenerV1.Delete(mailbox, id) }
+func (l verifListenerV1) Close()                          { l.msgListenerV1.Close() }
+func (l verifListenerV1) VerifLen() int                   { return len(l.msgListenerV1.c) }
+func (l verifListenerV1) VerifCap() int                   { return cap(l.msgListenerV1.c) }
+
+func (l verifListenerV1) VerifTryRecv() (ev string, ok bool, closed bool) {
+	select {
+	case m, open := <-l.msgListenerV1.c:
+		if !open {
+			return "", false, true
+		}
+		h := metadataToHeader(&m)
+		return "s:" + h.Mailbox + ":" + h.ID + ":" + h.Subject, true, false
+	default:
+		return "", false, false
+	}
+}
+
+func (l verifListenerV2) Receive(msg event.MessageMetadata) error {
+	return l.msgListenerV2.Receive(msg)
+}
+func (l verifListenerV2) Delete(mailbox, id string) error { return l.msgListenerV2.Delete(mailbox, id) }
+func (l verifListenerV2) Close()                          { l.msgListenerV2.Close() }
+func (l verifListenerV2) VerifLen() int                   { return len(l.msgListenerV2.c) }
+func (l verifListenerV2) VerifCap() int                   { return cap(l.msgListenerV2.c) }
+
+func (l verifListenerV2) VerifTryRecv() (ev string, ok bool, closed bool) {
+	select {
+	case e, open := <-l.msgListenerV2.c:
+		if !open {
+			return "", false, true
+		}
+		switch {
+		case e == nil:
+			return "?:nil", true, false
+		case e.Variant == "message-stored" && e.Header != nil:
+			return "s:" + e.Header.Mailbox + ":" + e.Header.ID + ":" + e.Header.Subject, true, false
+		case e.Variant == "message-deleted" && e.Identifier != nil:
+			return "d:" + e.Identifier.Mailbox + ":" + e.Identifier.ID, true, false
+		}
+		return "?:" + e.Variant, true, false
+	default:
+		return "", false, false
+	}
+}
